@@ -90,6 +90,18 @@ fn text_pool(rng: &mut Rng, slots: usize) -> Vec<String> {
                 let t = texts[i].trim_end().to_string();
                 texts.push(t);
             }
+            2 | 3 => {
+                // comments holding one-, two-, three- and four-byte characters in front of the code of
+                // some lines: byte, character and UTF-16 columns of everything behind them differ
+                let mut t = String::new();
+                for line in texts[i].split_inclusive('\n') {
+                    if line.trim().len() > 2 && rng.chance(1, 3) {
+                        t.push_str(*rng.pick(&["(* ä *)", "(* € 😀 *) ", "(*µ*) ", "(* 日本 *)"]));
+                    }
+                    t.push_str(line);
+                }
+                texts.push(t);
+            }
             _ => {}
         }
     }
@@ -800,17 +812,21 @@ fn sorted_multiset(v: &Value) -> Vec<String> {
 }
 
 fn offset_to_line_col(text: &str, offset: usize) -> Option<(u64, u64)> {
+    offset_to_line_col_in(text, offset, Unit::Chars)
+}
+
+fn offset_to_line_col_in(text: &str, offset: usize, unit: Unit) -> Option<(u64, u64)> {
     if offset > text.len() || !text.is_char_boundary(offset) {
         return None;
     }
     let mut line = 0;
-    let mut col = 0;
+    let mut col = 0u64;
     for c in text[..offset].chars() {
         if c == '\n' {
             line += 1;
             col = 0;
         } else {
-            col += 1;
+            col += unit.width(c) as u64;
         }
     }
     Some((line, col))
@@ -958,15 +974,10 @@ fn oracle_c11(t: &LspTrace, h: &History, stats: &mut Stats) -> Vec<Violation> {
                 Ok((_ok, diags)) => {
                     stats.count("c11.check_comparisons");
                     let base = base_name(&path);
-                    let mut pubset: Vec<(String, u64, u64)> = published
+                    let pubset_all: Vec<(String, u64, u64)> = published
                         .as_array()
                         .map(|a| a.iter().map(|d| (d["code"].as_str().unwrap_or("").to_string(), d["range"]["start"]["line"].as_u64().unwrap_or(0), d["range"]["start"]["character"].as_u64().unwrap_or(0))).collect())
                         .unwrap_or_default();
-                    let mut missing = vec![];
-                    // (code, acceptable start positions) of check diagnostics that touch this file only
-                    // with a secondary label: the primary label's position in its own file, or the
-                    // secondary label's position in this file
-                    let mut secondary_codes: Vec<(String, Vec<(u64, u64)>)> = vec![];
                     let mut by_base: BTreeMap<String, String> = BTreeMap::new();
                     if t.use_ws_folder {
                         // never-opened files of the workspace folder are part of the project too
@@ -975,38 +986,66 @@ fn oracle_c11(t: &LspTrace, h: &History, stats: &mut Stats) -> Vec<Violation> {
                         }
                     }
                     by_base.extend(model.by_path().into_iter().map(|(p, t)| (base_name(&p).to_string(), t)));
-                    for d in &diags {
-                        if base_name(&d.primary.file) == base {
-                            let pos = offset_to_line_col(&text, d.primary.start).unwrap_or((u64::MAX, u64::MAX));
-                            if let Some(i) = pubset.iter().position(|p| p.0 == d.code && p.1 == pos.0 && p.2 == pos.1) {
-                                pubset.remove(i);
-                            } else {
-                                missing.push((d.code.clone(), pos));
-                            }
-                        } else if d.secondary.iter().any(|l| base_name(&l.file) == base) {
-                            let mut acceptable = vec![];
-                            if let Some(pos) = by_base.get(base_name(&d.primary.file)).and_then(|t| offset_to_line_col(t, d.primary.start)) {
-                                acceptable.push(pos);
-                            }
-                            for l in d.secondary.iter().filter(|l| base_name(&l.file) == base) {
-                                if let Some(pos) = offset_to_line_col(&text, l.start) {
+                    // The comparison in one unit of "character": the property does not name one (the
+                    // protocol's default is UTF-16 code units, the pinned tree counts characters); a
+                    // publish is accepted iff it agrees with `check` in ONE unit used for all of its
+                    // diagnostics. For ASCII documents the units coincide.
+                    type Pos = (u64, u64);
+                    let compare = |unit: Unit| -> (Vec<(String, Pos)>, Vec<(String, u64, u64)>, Vec<((String, u64, u64), Vec<Pos>)>) {
+                        let mut pubset = pubset_all.clone();
+                        let mut missing = vec![];
+                        // (code, acceptable start positions) of check diagnostics that touch this file only
+                        // with a secondary label: the primary label's position in its own file, or the
+                        // secondary label's position in this file
+                        let mut secondary_codes: Vec<(String, Vec<Pos>)> = vec![];
+                        for d in &diags {
+                            if base_name(&d.primary.file) == base {
+                                let pos = offset_to_line_col_in(&text, d.primary.start, unit).unwrap_or((u64::MAX, u64::MAX));
+                                if let Some(i) = pubset.iter().position(|p| p.0 == d.code && p.1 == pos.0 && p.2 == pos.1) {
+                                    pubset.remove(i);
+                                } else {
+                                    missing.push((d.code.clone(), pos));
+                                }
+                            } else if d.secondary.iter().any(|l| base_name(&l.file) == base) {
+                                let mut acceptable = vec![];
+                                if let Some(pos) = by_base.get(base_name(&d.primary.file)).and_then(|t| offset_to_line_col_in(t, d.primary.start, unit)) {
                                     acceptable.push(pos);
                                 }
+                                for l in d.secondary.iter().filter(|l| base_name(&l.file) == base) {
+                                    if let Some(pos) = offset_to_line_col_in(&text, l.start, unit) {
+                                        acceptable.push(pos);
+                                    }
+                                }
+                                secondary_codes.push((d.code.clone(), acceptable));
                             }
-                            secondary_codes.push((d.code.clone(), acceptable));
                         }
-                    }
-                    // anything else published must be a check diagnostic that only touches this file with a secondary label
-                    let mut extras = vec![];
-                    let mut misplaced = vec![];
-                    for p in &pubset {
-                        if let Some(i) = secondary_codes.iter().position(|c| c.0 == p.0) {
-                            let (_, acceptable) = secondary_codes.remove(i);
-                            if !acceptable.is_empty() && !acceptable.contains(&(p.1, p.2)) {
-                                misplaced.push((p.clone(), acceptable));
+                        // anything else published must be a check diagnostic that only touches this file with a secondary label
+                        let mut extras = vec![];
+                        let mut misplaced = vec![];
+                        for p in &pubset {
+                            if let Some(i) = secondary_codes.iter().position(|c| c.0 == p.0) {
+                                let (_, acceptable) = secondary_codes.remove(i);
+                                if !acceptable.is_empty() && !acceptable.contains(&(p.1, p.2)) {
+                                    misplaced.push((p.clone(), acceptable));
+                                }
+                            } else {
+                                extras.push(p.clone());
                             }
-                        } else {
-                            extras.push(p.clone());
+                        }
+                        (missing, extras, misplaced)
+                    };
+                    let ascii = by_base.values().all(|t| t.is_ascii());
+                    if !ascii {
+                        stats.count("c11.check_comparisons_non_ascii");
+                    }
+                    let (mut missing, mut extras, mut misplaced) = compare(Unit::Chars);
+                    if !ascii && !(missing.is_empty() && extras.is_empty() && misplaced.is_empty()) {
+                        for unit in [Unit::Utf16, Unit::Bytes] {
+                            let r = compare(unit);
+                            if r.0.is_empty() && r.1.is_empty() && r.2.is_empty() {
+                                (missing, extras, misplaced) = r;
+                                break;
+                            }
                         }
                     }
                     if !misplaced.is_empty() {
